@@ -932,6 +932,7 @@ class SparseArray:
                         else:
                             raise IndexError(f'column index can be at most 1-d, not {nd}-d')
                     elif dtype is bool:
+                        if get_ndim(n) == 0: n = [n] * len(m)
                         if vd == 0:
                             if value:
                                 for i, j in zip(m, n): 
